@@ -172,3 +172,34 @@ Export Coq.Strings.String.StringSyntax.
 Delimit Scope string_scope with string.
 Bind Scope string_scope with String.string.
 Definition bs (s : String.string) : bytes := String.list_byte_of_string s.
+
+Lemma forallb_eq {A} (f g : A -> bool) l : (forall x, f x = g x) -> forallb f l = forallb g l.
+Proof. intro H. induction l as [|x l IH]; simpl; [reflexivity|]. rewrite H, IH. reflexivity. Qed.
+
+Lemma existsb_eq {A} (f g : A -> bool) l : (forall x, f x = g x) -> existsb f l = existsb g l.
+Proof. intro H. induction l as [|x l IH]; simpl; [reflexivity|]. rewrite H, IH. reflexivity. Qed.
+
+Lemma nth_error_last (a : byte) (s : bytes) : nth_error (a :: s) (length s) = Some (last (a :: s) x00).
+Proof.
+  revert a. induction s as [|b s IH]; intro a; [reflexivity|].
+  cbn [length nth_error]. rewrite IH. reflexivity.
+Qed.
+
+Lemma idx_last (s : bytes) : s <> [] -> idx s (length s - 1) = Ok (last s x00).
+Proof.
+  destruct s as [|a s]; [congruence|]. intros _.
+  cbn [length]. rewrite Nat.sub_succ, Nat.sub_0_r. unfold idx. rewrite nth_error_last. reflexivity.
+Qed.
+
+Lemma idx_0 (a : byte) (s : bytes) : idx (a :: s) 0 = Ok a.
+Proof. reflexivity. Qed.
+
+Lemma last_indep {A} (l : list A) d d' : l <> [] -> last l d = last l d'.
+Proof.
+  induction l as [|a l IH]; [congruence|]. intros _. destruct l as [|b l]; [reflexivity|].
+  change (last (a :: b :: l) d) with (last (b :: l) d). change (last (a :: b :: l) d') with (last (b :: l) d').
+  apply IH. congruence.
+Qed.
+
+Lemma Ok_inj {A} (a b : A) : Ok a = Ok b -> a = b.
+Proof. congruence. Qed.
